@@ -44,6 +44,11 @@ func runC01(c *Ctx) {
 	hyperCoordinates(c, "R7")
 	hyperListOwnership(c, "R8")
 	hyperLoaderErrors(c, "R9")
+	c.Rule("R11", "provers record every cached hash they read (outside an already recorded subtree) in the audit path", 3)
+	histCollectDiscipline(c, "R11", r)
+	c.Rule("R12", "hyper bulk insert: a shortcut leaf is made from leaves[0] only when the list has one element; the batch persisted is the one written", 2)
+	hyperLeafConservation(c, "R12")
+	hyperShortcutPersist(c, "R12")
 	c.Rule("R10", "provers create a fresh hasher per query; the trees' long-lived stateful hashers are used only under the exclusive lock (a shared hasher corrupts concurrent proofs)", 2)
 	var hg []guardSpec
 	for _, g := range c10Guards {
